@@ -85,6 +85,10 @@ pub struct Profile {
     pub block_sequences: bool,
     /// `{ var: - 0: ... - else: ... }` switch blocks (C01)
     pub switch_blocks: bool,
+    /// `->-> target` at the end of a tunnel knot
+    pub tunnel_onwards: bool,
+    /// thread targets with a parameter: `<- knot(arg)`
+    pub thread_params: bool,
 }
 
 impl Default for Profile {
@@ -118,6 +122,8 @@ impl Default for Profile {
             var_diverts: true,
             block_sequences: true,
             switch_blocks: true,
+            tunnel_onwards: true,
+            thread_params: true,
         }
     }
 }
@@ -241,7 +247,7 @@ impl<'a> Gen<'a> {
                 }
             };
             let mut params = vec![];
-            if self.p.knot_params && kind != KnotKind::ThreadTarget && i > 0 && self.t.chance(1, 5) {
+            if self.p.knot_params && (kind != KnotKind::ThreadTarget || self.p.thread_params) && i > 0 && self.t.chance(1, 5) {
                 params.push(self.pre(&format!("p{i}")));
             }
             let mut stitches = vec![];
@@ -625,13 +631,35 @@ impl<'a> Gen<'a> {
         Stmt::Divert(name, args)
     }
 
+    /// `<- name(args)`: a thread start with an argument for every parameter of the target
+    fn thread_stmt(&mut self, sc: &Scope, name: String) -> Stmt {
+        let np = self.knots.iter().find(|k| k.name == name).map(|k| k.params.len()).unwrap_or(0);
+        let args = (0..np).map(|_| self.int_expr(sc, 1)).collect();
+        Stmt::Thread(name, args)
+    }
+
     /// how a body that must not fall off the end terminates
     fn terminal(&mut self, sc: &Scope) -> Stmt {
         if sc.func.is_some() {
             return Stmt::Return(None);
         }
         match sc.kind {
-            KnotKind::Tunnel => Stmt::TunnelReturn,
+            KnotKind::Tunnel => {
+                // `->-> target`: the tunnel goes on somewhere else instead of returning
+                if self.p.tunnel_onwards && self.t.chance(2, 5) {
+                    let f: Vec<(String, usize)> = self
+                        .forward_targets(sc)
+                        .into_iter()
+                        .filter(|(n, _)| !self.dvars.iter().any(|d| &d.0 == n))
+                        .collect();
+                    if !f.is_empty() {
+                        let (n, np) = f[self.t.pick(f.len())].clone();
+                        let args = (0..np).map(|_| self.int_expr(sc, 1)).collect();
+                        return Stmt::TunnelOnwards(n, args);
+                    }
+                }
+                Stmt::TunnelReturn
+            }
             KnotKind::ThreadTarget => Stmt::Done,
             KnotKind::Plain => {
                 // occasionally `-> DONE` (safe exit; pending fallback choices still run)
@@ -724,7 +752,8 @@ impl<'a> Gen<'a> {
                     .collect();
                 if !tt.is_empty() && self.t.chance(1, 2) {
                     let k = self.t.pick(tt.len());
-                    b.stmts.push(Stmt::Thread(tt[k].clone()));
+                    let th = self.thread_stmt(sc, tt[k].clone());
+                    b.stmts.push(th);
                 }
             }
             b.group = Some(self.group(sc, depth, must_end));
@@ -749,7 +778,8 @@ impl<'a> Gen<'a> {
                 .map(|(_, k)| k.name.clone())
                 .collect();
             let k = self.t.pick(tt.len());
-            b.stmts.push(Stmt::Thread(tt[k].clone()));
+            let th = self.thread_stmt(sc, tt[k].clone());
+                    b.stmts.push(th);
             // `-> END` instead of `-> DONE` ends the story whatever the thread offered
             if self.t.chance(1, 4) {
                 b.stmts.push(Stmt::End);
@@ -1089,7 +1119,7 @@ impl<'a> Gen<'a> {
                     Stmt::Line(self.text_line(sc, false))
                 } else {
                     let k = self.t.pick(tt.len());
-                    Stmt::Thread(tt[k].clone())
+                    self.thread_stmt(sc, tt[k].clone())
                 }
             }
             8 if self.p.block_sequences && !in_func && self.t.chance(1, 2) => {
